@@ -3,9 +3,12 @@
 # Confirms an independently written property-breaking change in a fresh scratch worktree of /repo:
 #   demo passes on the unmodified tree, fails with the patch, the unedited test suite still passes with the patch;
 # then runs the named checks against the patched tree and stores everything under /verif/seeded/<seed id>/.
+# PHASE=A: confirmation only (can run for many seeds in parallel: the suite is single-process);
+# PHASE=B: checks only (sequential: each check uses all cores); default: both.
 id="$1"; src="$2"; shift 2; checks="$@"
 verif="$(cd "$(dirname "$0")/.." && pwd)"
 wt="/tmp/vseed_$id"
+if [ "$PHASE" != "B" ]; then
 git -C /repo worktree remove --force "$wt" 2>/dev/null
 git -C /repo worktree add -q --detach "$wt" HEAD || exit 2
 mkdir -p "$wt/_seed" && cp "$src/demo.py" "$wt/_seed/demo.py"
@@ -20,7 +23,12 @@ cd "$verif"
 git -C /repo worktree remove --force "$wt"
 dst="$verif/seeded/$id"; mkdir -p "$dst"
 cp "$src/patch.diff" "$src/demo.py" "$dst/"; [ -f "$src/notes.md" ] && cp "$src/notes.md" "$dst/"
+echo "$base|$mut|$suite" > "$dst/.confirm"
+fi
+cd "$verif"; dst="$verif/seeded/$id"
+IFS='|' read base mut suite < "$dst/.confirm"
 res=""
+[ "$PHASE" = "A" ] && checks=""
 for c in $checks; do
   line=$(tools/mutant.py "$dst/patch.diff" "$c" 2>&1 | grep -E "DETECTED|MISSED|ERROR|EXIT1" | head -1 | cut -c1-120)
   echo "   $line"
@@ -36,6 +44,8 @@ meta = {"id": id_, "property": id_.split("-")[0], "origin": "written by an indep
         "confirmed": {"demo_exit_unmodified": int(base), "demo_exit_with_patch": int(mut), "suite_with_patch": suite,
                       "how": "fresh git worktree of /repo HEAD under /tmp; demo; git apply patch.diff; demo; unedited pytest suite"},
         "checks_run": {kv.split(":")[0]: kv.split(":")[1] for kv in res.split() if ":" in kv}}
+if os.environ.get("PHASE") == "B":
+    os.unlink(os.path.join(dst, ".confirm"))
 json.dump(meta, open(os.path.join(dst, "meta.json"), "w"), indent=1)
 print(json.dumps(meta["checks_run"]))
 EOF
